@@ -193,3 +193,23 @@ def check_c07_nodes(prop, tier, replay):
                                "DeleteReplica and of requests that must be refused, with and without "
                                "OrderedConfigChange, while clients write; memberships read through "
                                "SyncGetShardMembership on every running host"])
+
+
+def check_c17_hosts(prop, tier, replay):
+    """fourth engine of C17: requests on real NodeHosts after the shard went quiescent"""
+    n, tr, rounds = (8, 2, 4) if tier == "quick" else (16, 6, 8)
+    batches = [{"first": k * tr, "traces": tr, "mode": "quiesce", "dur": 0, "rounds": rounds,
+                "store": "tan" if k % 4 == 3 else None} for k in range(n)]
+    return tv_run(prop, tier, replay, harness_dirs=HARNESS, pkg=".", test="TestVerifNhsim",
+                  trace_module="QuiesceHostTrace", tag="QH-REPORT", count_tag="QH-COUNT",
+                  batches=batches, env_of=_snap_env, mc=(),
+                  level="exploration", stats_tag="NHSTATS", panic_ok=True, max_workers=8,
+                  build_name="nhsim", merge_into_existing=True,
+                  what="request on a shard with Quiesce enabled: hangs without a quorum, times out long before its "
+                       "deadline, or does not complete on a connected shard",
+                  sig_of=lambda op, f: "C17:quiesce-host:%s" % op,
+                  assumptions=["wall-clock engine: a Timeout counts as early only before half of the requested time, "
+                               "a request as hanging only 3 s after its deadline, a connected shard as not serving "
+                               "only after 20 s of paced attempts of 4 s each",
+                               "samples of real schedules (3 and 5 hosts, CheckQuorum / PreVote on and off, crash or "
+                               "partition of the other replicas while the shard sleeps)"])
